@@ -20,6 +20,10 @@ pub type Date = String;
 // what a consumer supplies for an externally defined enum: the same open-world wire behaviour
 #[derive(Debug, Clone, PartialEq)]
 pub enum Color { RED, GREEN, Blue, Other(String) }
+// the schema spells the enum `color_kind`; generated code refers to it by that name or, under
+// normalization = rust, by `ColorKind`
+pub type color_kind = Color;
+pub type ColorKind = Color;
 impl serde::Serialize for Color {
     fn serialize<S: serde::Serializer>(&self, s: S) -> Result<S::Ok, S::Error> {
         s.serialize_str(match self { Color::RED => "RED", Color::GREEN => "GREEN", Color::Blue => "blue", Color::Other(o) => o })
@@ -33,8 +37,8 @@ impl<'de> serde::Deserialize<'de> for Color {
 }
 '''
 
-VARS = [{"name": "c", "type": {"q": [], "base": "Color"}}, {"name": "when", "type": {"q": ["R"], "base": "Date"}},
-        {"name": "f", "type": {"q": [], "base": "Filter"}}, {"name": "cs", "type": {"q": ["L", "R"], "base": "Color"}}]
+VARS = [{"name": "c", "type": {"q": [], "base": "color_kind"}}, {"name": "when", "type": {"q": ["R"], "base": "Date"}},
+        {"name": "f", "type": {"q": [], "base": "Filter"}}, {"name": "cs", "type": {"q": ["L", "R"], "base": "color_kind"}}]
 ASSIGNMENTS = [
     {"c": "RED", "when": "2020-01-01", "f": {"color": "blue", "when": None, "n": 3, "not": None}, "cs": ["GREEN", "blue"]},
     {"c": None, "when": "", "f": None, "cs": None},
@@ -44,7 +48,8 @@ ASSIGNMENTS = [
 ]
 
 
-TYPE_RENAMES = {"Robot": "HTTPRobot", "Cat": "tabby_cat"}
+TYPE_RENAMES = {"Robot": "HTTPRobot", "Cat": "tabby_cat", "Color": "color_kind"}
+EXTERN = {"Color": "color_kind"}       # Options.tla names the extern enum `Color`; the schema here spells it color_kind
 OP_NAME = "myOp_query"
 
 
@@ -59,7 +64,7 @@ def opts_of(o):
     if o["custom_scalars_module"]:
         d["custom_scalars_module"] = o["custom_scalars_module"]
     if o["extern_enums"]:
-        d["extern_enums"] = [o["extern_enums"]]
+        d["extern_enums"] = [EXTERN.get(o["extern_enums"], o["extern_enums"])]
     if o["serde_path"]:
         d["serde_path"] = o["serde_path"]
     return d
@@ -84,12 +89,18 @@ def main(tier, replay=None, selftest=False):
     singles = [c["options"] for c in allopts if c["distance"] == 1]
     rest = [c["options"] for c in allopts if c["distance"] > 1]
     optsets = [default] + singles + rng.sample(rest, max(0, nopt - 1 - len(singles)))
+    # normalization interacts with every name-carrying option: each single change also under normalization = rust
+    for o in singles:
+        if o["normalization"] == default["normalization"]:
+            o2 = dict(o, normalization="rust")
+            if o2 in rest and o2 not in optsets:
+                optsets.append(o2)
     # schema: the universe + an input type
     sch = prog.rename_types(prog.schema_from_tla(sj, "full"), TYPE_RENAMES)
     progs = [rename_program(p) for p in progs]
     tr = lambda b, q=(): {"q": list(q), "base": b}
     sch["types"].append({"kind": "INPUT_OBJECT", "name": "Filter", "oneOf": False, "inputFields": [
-        {"name": "color", "type": tr("Color")}, {"name": "when", "type": tr("Date")}, {"name": "n", "type": tr("Int")},
+        {"name": "color", "type": tr("color_kind")}, {"name": "when", "type": tr("Date")}, {"name": "n", "type": tr("Int")},
         {"name": "not", "type": tr("Filter")}]})
     sp = os.path.join(workdir, "universe.graphql")
     vlib.write_if_changed(sp, render.sdl(sch))
@@ -102,7 +113,8 @@ def main(tier, replay=None, selftest=False):
         p["text"] = text
         for oi, o in enumerate(optsets):
             jid = "%d|%d" % (pi, oi)
-            jobs.append({"id": jid, "schema_path": sp, "query": text, "options": opts_of(o), "want_tokens": True})
+            jobs.append({"id": jid, "schema_path": sp, "query": text, "options": opts_of(o), "want_tokens": True,
+                         "want_inventory": bool(o["extern_enums"])})
             meta[jid] = (pi, oi)
     results, _ = vlib.gqlv("gen", jobs, timeout=2400)
     cons = Consumers("c09", nbins=14)
@@ -110,6 +122,16 @@ def main(tier, replay=None, selftest=False):
     for r in results:
         pi, oi = meta[r["id"]]
         ok[(pi, oi)] = r["status"]
+        if r["status"] == "ok" and optsets[oi]["extern_enums"] and "inventory" in r:
+            # extern_enums(X): the module refers to the consumer's X and defines no enum of its own for it
+            ext = EXTERN.get(optsets[oi]["extern_enums"], optsets[oi]["extern_enums"])
+            flat = lambda n: n.replace("_", "").lower()
+            own = [n for m_ in r["inventory"]["mods"].values() for n in m_["items"]["enums"] if flat(n) == flat(ext)]
+            ck.count()
+            if own:
+                ck.violation("extern-%s-o%d" % (progs[pi]["hash"], oi), {"query": progs[pi]["text"], "options": optsets[oi], "defined": own},
+                             "C09: extern_enums(\"%s\") with options %s: the module still defines its own enum %s" % (
+                                 ext, {k: v for k, v in optsets[oi].items() if v != default.get(k)}, own), case_key="extern-defined")
         if r["status"] == "ok":
             import re
             m = re.search(r"pub(?: \(crate\))? struct (\w+) ;", r["tokens"])
